@@ -36,13 +36,13 @@ GNext == /\ \/ \E e \in Events : AclAppend(e) /\ h' = Append(h, [a |-> "acl", e 
 
 GSpec == GInit /\ [][GNext]_gvars
 
-DCode(d) == d.nf + 3 * d.pos + 7 * d.cite + 11 * d.fc + (IF d.fa = "S" THEN 5 ELSE 0)
+DCode(d) == (IF d.pre THEN 2 ELSE 0) + d.nf + 3 * d.pos + 7 * d.cite + 11 * d.fc + (IF d.fa = "S" THEN 5 ELSE 0)
             + (IF d.after = "child" THEN 0 ELSE 13)
             + (CASE d.au = "S" -> 0 [] d.au = "W" -> 17 [] OTHER -> 29)
             + (CASE d.pk = "heads" -> 0 [] d.pk = "fork" -> 31 [] d.pk = "redundant" -> 37
                  [] d.pk = "unknown" -> 41 [] OTHER -> 43)
             + (CASE d.m = "none" -> 0 [] d.m = "bytes" -> 47 [] d.m = "bytesReid" -> 53 [] d.m = "id" -> 59
-                 [] d.m = "idDup" -> 61 [] d.m = "swap" -> 67 [] d.m = "twin" -> 73 [] OTHER -> 71)
+                 [] d.m = "idDup" -> 61 [] d.m = "swap" -> 67 [] d.m = "twin" -> 73 [] d.m = "idAlias" -> 79 [] OTHER -> 71)
 
 SampleMod == IF focus = "bytes" THEN SampleBytes ELSE IF focus = "acl" THEN SampleAcl ELSE 1
 Kept(d) == SampleMod = 1 \/ (DCode(d) + Salt + Len(h)) % SampleMod = 0
@@ -50,11 +50,12 @@ Kept(d) == SampleMod = 1 \/ (DCode(d) + Salt + Len(h)) % SampleMod = 0
 SeqOfSet(S) == LET RECURSIVE F(_) F(T) == IF T = {} THEN <<>> ELSE LET x == Max(T) IN Append(F(T \ {x}), x) IN F(S)
 
 Member(c) == [id |-> c.id, kind |-> c.kind, au |-> c.au, named |-> c.named, cite |-> c.cite,
-              par |-> SeqOfSet(c.par), snap |-> c.snap, cidOk |-> c.cidOk, sigOk |-> c.sigOk, tw |-> c.tw]
+              par |-> SeqOfSet(c.par), snap |-> c.snap, cidOk |-> c.cidOk, sigOk |-> c.sigOk, tw |-> c.tw, al |-> c.al]
 
 CaseOf(d) ==
     LET b == BatchOf(d)
-        r == CodeDeliver(b)
+        g == [b[d.pos + 1] EXCEPT !.cidOk = TRUE, !.sigOk = TRUE]
+        r == CodeDeliverU(b, IF d.pre /\ Dev_KeepUnattached THEN unatt \cup {g} ELSE unatt)
     IN [d |-> d, b |-> [k \in 1..Len(b) |-> Member(b[k])], v |-> r.verdict, p |-> PropDeliver(b),
         att |-> SeqOfSet(Ids(r.attached)), heads |-> SeqOfSet(r.heads), st |-> SeqOfSet(Ids(r.stored)),
         mr |-> r.memRoot]
